@@ -40,6 +40,8 @@ type TCPFault struct {
 	After    int    `json:"after_steps,omitempty"` // steps after the first client connected
 	AtMs     int    `json:"at_ms,omitempty"`
 	AsBackup bool   `json:"as_backup,omitempty"`
+	// ForMs (receiver-pause): for how long the client of connection Node does not read what the proxy sends it
+	ForMs int `json:"for_ms,omitempty"`
 	// OtherType (host-add): the endpoint is announced with the type it does not have at the moment (main <-> backup)
 	OtherType  bool   `json:"other_type,omitempty"`
 	AfterStart int    `json:"after_start,omitempty"` // >= 1: AfterStart-1 steps after Start() returned
@@ -228,6 +230,8 @@ type tcpWorld struct {
 	faultSteps                    []int64
 	lastFault                     time.Time
 	faultsFired                   map[string]int
+	evSeq                         int
+	pausedReceivers               int // receivers that are not reading at the moment (receiver-pause)
 	hostTasks                     []*simhook.Task
 	hcTasks                       []*simhook.Task
 	stopRequested, drainRequested bool
@@ -632,6 +636,27 @@ func (w *tcpWorld) inject(f *TCPFault) bool {
 		w.hostTasks = append(w.hostTasks, tk)
 		w.hcTasks = append(w.hcTasks, tk)
 		return true
+	case "receiver-pause":
+		// the client of connection f.Node stops reading for f.ForMs: what the proxy writes to it piles up in the socket
+		// buffers, then the relay's write blocks (back-pressure) while the backend keeps sending
+		if f.Node >= len(w.sc.Conns) {
+			return false
+		}
+		for _, c := range w.clients {
+			if c.name == "cl-"+w.sc.Conns[f.Node].Name && c.end != nil && !c.eof && !c.reset {
+				pe := c.end.Peer()
+				pe.Stall(true)
+				w.evSeq++
+				w.pausedReceivers++
+				w.rt.AddEventAt(time.Now().Add(time.Duration(f.ForMs)*time.Millisecond), fmt.Sprintf("receiver-resume:%s#%d", c.name, w.evSeq), func() {
+					w.pausedReceivers--
+					w.lastFault = time.Now()
+					pe.Stall(false)
+				})
+				return true
+			}
+		}
+		return false
 	case "backend-down":
 		w.env.SetAccepting(f.Node, false)
 		return true
@@ -707,7 +732,7 @@ func (w *tcpWorld) Done() bool {
 	if len(w.pendingConns) > 0 || w.firstConn < 0 && len(w.sc.Conns) > 0 {
 		return false
 	}
-	if w.connectEvents > len(w.clients)+len(w.refused) {
+	if w.connectEvents > len(w.clients)+len(w.refused) || w.pausedReceivers > 0 {
 		return false
 	}
 	if !w.peersSettled() || !w.env.Quiet() {
